@@ -86,7 +86,7 @@ def _unquote(line):
 
 
 def run_tlc(module, cfg, workers=8, timeout=600, env=None, simulate=None, depth=None, seed=None,
-            coverage=False, deadlock=False, extra=None, keep_lines=False, allow_violation=False):
+            coverage=False, deadlock=False, extra=None, keep_lines=False, allow_violation=False, allow_timeout=False):
     """Run TLC on spec/<module>.tla with spec/<cfg>.  Returns TLCResult.
     Lines printed with PrintT(ToJson(x)) are collected in .json (parsed)."""
     md = tempfile.mkdtemp(prefix='tlc_', dir=scratch())
@@ -150,6 +150,8 @@ def run_tlc(module, cfg, workers=8, timeout=600, env=None, simulate=None, depth=
     finished = any('Model checking completed' in l or 'Finished in' in l for l in other[-12:])
     r.ok = (rc == 0 and finished) or (r.timed_out and simulate is not None)
     if r.invariant_violated and allow_violation:
+        return r
+    if r.timed_out and allow_timeout:
         return r
     if not r.ok and not (allow_violation and r.invariant_violated):
         if r.invariant_violated:
